@@ -195,3 +195,32 @@ def po_update_inline(S):
        covers=("healthy", "liquidated"), config={"max_seconds": 600, "max_paths": 20000, "native_samples": {"quick": 40, "thorough": 300}})
 def po_update_modular(S):
     _update_obligations(S)
+
+
+@proof("C12", "update/second-bar:liquidated-iff-health-factor<1-at-THIS-bar's-indices(prices-unchanged)", strength="S",
+       shapes={"quick": LOOP_SHAPES_MODULAR["thorough"][:1], "thorough": LOOP_SHAPES_MODULAR["thorough"][:2]}, contracts=DO_LIQUIDATE_CONTRACT,
+       covers=("liquidated",), config={"max_seconds": 900, "max_paths": 20000, "native_samples": {"quick": 20, "thorough": 100}})
+def po_update_next_bar(S):
+    """'At the end of a bar a position is liquidated iff its health factor is below 1' holds for EVERY bar: bar 0 is healthy (update finds
+    nothing to do); in bar 1 only the liquidity / borrow indices have moved (the price row is the same object with the same values); if
+    that pushes the health factor below 1, update() must liquidate."""
+    from demeter.aave._typing import AaveMarketStatus
+    from .aave_common import add_next_bar
+    from .worlds import T1
+    w = world(S)
+    m = w.market
+    m.is_open = True
+    S.assume(hf_at_least_one(m))
+    m.update()
+    S.check("bar-0:healthy=>no-liquidation", len(w.actions) == 0)
+    add_next_bar(S, w, "next_")
+    m.set_market_status(AaveMarketStatus(T1, None), m._price_status)
+    healthy = hf_at_least_one(m)
+    wlt = weighted_collateral(m, "LT")
+    m.update()
+    if not healthy:
+        if len(w.actions) > 0:
+            S.cover("liquidated")
+        S.check("bar-1:health-factor<1=>liquidated(unless-no-collateral)", len(w.actions) >= 1 or wlt == 0)
+    else:
+        S.check("bar-1:health-factor>=1=>no-liquidation", len(w.actions) == 0)
